@@ -4,6 +4,22 @@ import json, os
 V = os.path.dirname(os.path.dirname(os.path.abspath(__file__)))
 ALL = ['C%02d' % i for i in range(1, 21)]
 CHECKS = {
+ 'C01': dict(
+   text=("Line-by-line model of Path.d (closing-segment rule, M re-emission, per-kind emission, S/T by is_smooth_from, Z, relative lowering) "
+         "with three repair flags, composed with C02's parser and tokenizer models (coq/Model/Dstr.v, DstrText.v). Theorems for paths of ANY "
+         "length and all parser variants: absolute form without S/T round-trips for ANY carrier with NO arithmetic laws (only a decidable == "
+         "that is an equivalence) — hence verbatim for binary64 (instance proved from FloatAxioms); with S/T under the reflection law, which "
+         "holds for exact carriers and is REFUTED for binary64 for the pinned test (PrimFloat witness) and holds law-free for the repaired test; "
+         "use_closed_attrib: refuted for a closing curve / single closed curve / S-T after a re-emitted M (witnesses), full theorem for the "
+         "repaired serialiser; all 8 option sets over exact carriers; shape theorem (kinds, order, flags; nothing added but the documented "
+         "closing line) for any carrier; string-level round trip through C02's rendering theorem. Tie: d-string compared character for "
+         "character, tokens and parse compared inside Coq in PrimFloat (repr/float as checked oracle), 9 translator agreement lemmas; the "
+         "statement is evaluated on the implementation for all 8 option sets."),
+   note=("Trusted: kernel+vm_compute, PrimFloat = CPython floats (FloatAxioms.eqb_spec/sub_spec for the binary64 instances), py2v.py, harness; "
+         "CPython repr/float are oracles with a per-number checked contract. Numeric drift of the relative forms in binary64 is checked by "
+         "the harness only."),
+   technique='Coq refinement/round-trip theorems (induction over segment lists, law-free carriers) + PrimFloat witnesses + character-exact correspondence',
+   ref='DESIGN.md §3 C01'),
  'C03': dict(
    text=("Every identity in the property (point = Bernstein sum, exact end points, poly()/points()/poly2bez "
          "round trips, derivative(t,n) = n-th formal derivative for all n>=1, n<=0 rejected) is a theorem of "
